@@ -786,3 +786,41 @@ Example ex_print : bitvToString c70 [5; 33]
     ++ [PZero; PZero; PZero; PZero; POne; PSpace; PZero; PZero; PZero; PZero; POne; PSpace; PRbr]
   /\ snd (bitvPrint c70 [5; 33]) = 86%nat.
 Proof. split; vm_compute; reflexivity. Qed.
+
+(* ------------------------------------------------------------------ counting across the algebra *)
+Lemma countTrue_map_incl_excl : forall (g h : nat -> bool) l,
+  (countTrue (map (fun i => g i || h i) l) + countTrue (map (fun i => g i && h i) l)
+   = countTrue (map g l) + countTrue (map h l))%nat.
+Proof.
+  intros g h. induction l as [|x t IH]; [reflexivity|]. cbn [map countTrue].
+  destruct (g x); destruct (h x); cbn [orb andb]; lia.
+Qed.
+
+Lemma countTrue_map_minus : forall (g h : nat -> bool) l,
+  (countTrue (map (fun i => g i && negb (h i)) l) + countTrue (map (fun i => g i && h i) l)
+   = countTrue (map g l))%nat.
+Proof.
+  intros g h. induction l as [|x t IH]; [reflexivity|]. cbn [map countTrue].
+  destruct (g x); destruct (h x); cbn [orb andb negb]; lia.
+Qed.
+
+Lemma countTrue_map_not : forall (g : nat -> bool) l,
+  (countTrue (map (fun i => negb (g i)) l) + countTrue (map g l) = length l)%nat.
+Proof.
+  intros g. induction l as [|x t IH]; [reflexivity|]. cbn [map countTrue length].
+  destruct (g x); cbn [negb]; lia.
+Qed.
+
+Lemma count_algebra : forall c a b, wfc c ->
+  (bitvCount c (bitvOr c a b) + bitvCount c (bitvAnd c a b) = bitvCount c a + bitvCount c b)%nat /\
+  (bitvCount c (bitvMinus c a b) + bitvCount c (bitvAnd c a b) = bitvCount c a)%nat /\
+  (bitvCount c (bitvNot c a) + bitvCount c a = nbits c)%nat.
+Proof.
+  intros c a b Hc. rewrite !count_spec.
+  destruct (set_algebra c a b Hc) as (Ha & Ho & Hm & Hn). rewrite Ha, Ho, Hm, Hn.
+  unfold bits. rewrite !zipb_map, map_map.
+  repeat split.
+  - apply countTrue_map_incl_excl.
+  - apply countTrue_map_minus.
+  - rewrite countTrue_map_not, seq_length. reflexivity.
+Qed.
